@@ -466,8 +466,8 @@ theorem emergency_items (cfg : Cfg) (s : State) : (emergency cfg s).items = s.it
 theorem emergency_clock (cfg : Cfg) (s : State) : (emergency cfg s).clock = s.clock := by
   unfold emergency; simp only; split <;> rfl
 
-theorem enqueue_acct (cfg : Cfg) (s : State) (id : Nat) (ty : WType) (c : Nat) (h : Acct s) :
-    Acct (enqueue cfg s id ty c) := by
+theorem enqueue_acct (cfg : Cfg) (s : State) (id : Nat) (ty : WType) (c : Nat) (st : Stamp) (h : Acct s) :
+    Acct (enqueue cfg s id ty c st) := by
   unfold enqueue
   have hs1 : Acct (if s.queue.length ≥ cfg.maxQ then emergency cfg s else s) := by
     split
@@ -486,11 +486,11 @@ theorem enqueue_acct (cfg : Cfg) (s : State) (id : Nat) (ty : WType) (c : Nat) (
   · exact hs1.em
   · exact hs1.exp
 
-theorem ingest_acct (cfg : Cfg) (s : State) (id : Nat) (ty : WType) (c : Nat) (h : Acct s) :
-    Acct (ingest cfg s id ty c).1 := by
+theorem ingest_acct (cfg : Cfg) (s : State) (id : Nat) (ty : WType) (c : Nat) (st : Stamp) (h : Acct s) :
+    Acct (ingest cfg s id ty c st).1 := by
   unfold ingest
-  have h2 := enqueue_acct cfg s id ty c h
-  generalize enqueue cfg s id ty c = s2 at h2
+  have h2 := enqueue_acct cfg s id ty c st h
+  generalize enqueue cfg s id ty c st = s2 at h2
   simp only
   split
   · split
@@ -500,18 +500,21 @@ theorem ingest_acct (cfg : Cfg) (s : State) (id : Nat) (ty : WType) (c : Nat) (h
 
 theorem autophagy_acct (cfg : Cfg) (s : State) (h : Acct s) : Acct (autophagy cfg s).1 := by
   have h2 := count_filter_split (keeps cfg s.clock) s.queue
+  unfold autophagy
+  split
+  · exact h
   constructor
   · intro it
     have := h.occ_eq it
     have := h2 it
-    simp only [autophagy, occ, List.count_append] at *
+    simp only [occ, List.count_append] at *
     omega
-  · simpa [autophagy] using h.seqs
-  · simpa [autophagy] using h.dig
-  · simpa [autophagy] using h.err
-  · simpa [autophagy] using h.em
+  · simpa using h.seqs
+  · simpa using h.dig
+  · simpa using h.err
+  · simpa using h.em
   · have := h.exp
-    simp only [autophagy, List.length_append]
+    simp only [List.length_append]
     omega
 
 theorem step_acct (cfg : Cfg) (s : State) (op : Op) (h : Acct s) : Acct (step cfg s op).1 := by
@@ -519,7 +522,7 @@ theorem step_acct (cfg : Cfg) (s : State) (op : Op) (h : Acct s) : Acct (step cf
   split
   · exact h
   · cases op with
-    | ingest id ty c => exact ingest_acct cfg s id ty c h
+    | ingest id ty c st => exact ingest_acct cfg s id ty c st h
     | digest k => exact digestCore_acct cfg s _ false h
     | autophagy => exact autophagy_acct cfg s h
     | advance us => exact ⟨h.occ_eq, h.seqs, h.dig, h.err, h.em, h.exp⟩
@@ -541,8 +544,8 @@ theorem emergency_queue_len (cfg : Cfg) (s : State) :
   · rename_i h; simp [h]
   · simp
 
-theorem enqueue_queue_len (cfg : Cfg) (s : State) (id : Nat) (ty : WType) (c : Nat) :
-    (enqueue cfg s id ty c).queue.length =
+theorem enqueue_queue_len (cfg : Cfg) (s : State) (id : Nat) (ty : WType) (c : Nat) (st : Stamp) :
+    (enqueue cfg s id ty c st).queue.length =
       (if s.queue.length ≥ cfg.maxQ then s.queue.length - s.queue.length / 2 else s.queue.length) + 1 := by
   unfold enqueue
   simp only [List.length_append, List.length_cons, List.length_nil]
@@ -558,9 +561,9 @@ theorem step_queue_bound (cfg : Cfg) (h2 : 2 ≤ cfg.maxQ) (s : State) (op : Op)
   split
   · exact hq
   · cases op with
-    | ingest id ty c =>
-      have hl := enqueue_queue_len cfg s id ty c
-      have he : (enqueue cfg s id ty c).queue.length ≤ cfg.maxQ := by
+    | ingest id ty c st =>
+      have hl := enqueue_queue_len cfg s id ty c st
+      have he : (enqueue cfg s id ty c st).queue.length ≤ cfg.maxQ := by
         rw [hl]; split <;> omega
       unfold ingest
       simp only
@@ -572,7 +575,9 @@ theorem step_queue_bound (cfg : Cfg) (h2 : 2 ≤ cfg.maxQ) (s : State) (op : Op)
     | digest k => exact Nat.le_trans (digestCore_queue_le _ _ _ _) hq
     | autophagy =>
       simp only [autophagy]
-      exact Nat.le_trans (List.length_filter_le _ _) hq
+      split
+      · exact hq
+      · exact Nat.le_trans (List.length_filter_le _ _) hq
     | advance us => exact hq
     | clearBin => exact hq
 
@@ -589,6 +594,7 @@ def Obs.returned : Obs → Bool
   | .ok => true
   | .digest _ => true
   | .removed _ => true
+  | .raised => true
   | .hang => false
   | .dead => false
 
@@ -597,8 +603,8 @@ theorem digestCore_dead (cfg : Cfg) (s : State) (n : Nat) (via : Bool) : (digest
 theorem emergency_dead (cfg : Cfg) (s : State) : (emergency cfg s).dead = s.dead := by
   unfold emergency; simp only; split <;> rfl
 
-theorem enqueue_dead (cfg : Cfg) (s : State) (id : Nat) (ty : WType) (c : Nat) :
-    (enqueue cfg s id ty c).dead = s.dead := by
+theorem enqueue_dead (cfg : Cfg) (s : State) (id : Nat) (ty : WType) (c : Nat) (st : Stamp) :
+    (enqueue cfg s id ty c st).dead = s.dead := by
   unfold enqueue
   simp only
   split
@@ -610,14 +616,14 @@ theorem step_returns (cfg : Cfg) (hre : cfg.reent = true) (s : State) (op : Op) 
   unfold step
   rw [if_neg (by simp [hd])]
   cases op with
-  | ingest id ty c =>
+  | ingest id ty c st =>
     unfold ingest
     simp only [hre, if_true]
     split
     · exact ⟨rfl, by rw [digestCore_dead, enqueue_dead]; exact hd⟩
     · exact ⟨rfl, by rw [enqueue_dead]; exact hd⟩
   | digest k => exact ⟨rfl, hd⟩
-  | autophagy => exact ⟨rfl, hd⟩
+  | autophagy => simp only [autophagy]; split <;> exact ⟨rfl, hd⟩
   | advance us => exact ⟨rfl, hd⟩
   | clearBin => exact ⟨rfl, hd⟩
 
@@ -732,8 +738,8 @@ theorem step_tox {cfg : Cfg} {f : Item → Bool} (htd : cfg.toxDig = none) (hot 
   split
   · exact h
   · cases op with
-    | ingest id ty c =>
-      have he : ToxInv (enqueue cfg s id ty c) := by
+    | ingest id ty c st =>
+      have he : ToxInv (enqueue cfg s id ty c st) := by
         unfold enqueue
         simp only
         split
@@ -747,7 +753,7 @@ theorem step_tox {cfg : Cfg} {f : Item → Bool} (htd : cfg.toxDig = none) (hot 
         · exact he
       · exact he
     | digest k => exact digestCore_tox htd hot _ _ _ h
-    | autophagy => exact h
+    | autophagy => simp only [autophagy]; split <;> exact h
     | advance us => exact h
     | clearBin => exact h
 
@@ -786,8 +792,8 @@ theorem step_bin {cfg : Cfg} (htd : cfg.toxDig = none) (s : State) (op : Op) (h 
   split
   · exact h
   · cases op with
-    | ingest id ty c =>
-      have he : BinInv (enqueue cfg s id ty c) := by
+    | ingest id ty c st =>
+      have he : BinInv (enqueue cfg s id ty c st) := by
         unfold enqueue BinInv
         simp only
         split
@@ -801,7 +807,7 @@ theorem step_bin {cfg : Cfg} (htd : cfg.toxDig = none) (s : State) (op : Op) (h 
         · exact he
       · exact he
     | digest k => exact (digestCore_bin htd _ _ _ h).1
-    | autophagy => exact h
+    | autophagy => simp only [autophagy]; split <;> exact h
     | advance us => exact h
     | clearBin => intro kv hkv; simp at hkv
 
@@ -817,8 +823,8 @@ theorem run_bin {cfg : Cfg} (htd : cfg.toxDig = none) :
 theorem emergency_pending (cfg : Cfg) (s : State) : (emergency cfg s).gPending = s.gPending := by
   unfold emergency; simp only; split <;> rfl
 
-theorem enqueue_pending (cfg : Cfg) (s : State) (id : Nat) (ty : WType) (c : Nat) :
-    (enqueue cfg s id ty c).gPending = s.gPending := by
+theorem enqueue_pending (cfg : Cfg) (s : State) (id : Nat) (ty : WType) (c : Nat) (st : Stamp) :
+    (enqueue cfg s id ty c st).gPending = s.gPending := by
   unfold enqueue
   simp only
   split
@@ -830,16 +836,16 @@ theorem step_pending (cfg : Cfg) (s : State) (op : Op) : (step cfg s op).1.gPend
   split
   · rfl
   · cases op with
-    | ingest id ty c =>
+    | ingest id ty c st =>
       unfold ingest
       simp only
       split
       · split
-        · exact enqueue_pending cfg s id ty c
-        · exact enqueue_pending cfg s id ty c
-      · exact enqueue_pending cfg s id ty c
+        · exact enqueue_pending cfg s id ty c st
+        · exact enqueue_pending cfg s id ty c st
+      · exact enqueue_pending cfg s id ty c st
     | digest k => rfl
-    | autophagy => rfl
+    | autophagy => simp only [autophagy]; split <;> rfl
     | advance us => rfl
     | clearBin => rfl
 
